@@ -164,6 +164,15 @@ func bodyM(p pred, hist []wop, backpressure bool, subAfter int, masked bool, rep
 		col := resource.NewCollection()
 		ctx, cancel := context.WithCancel(context.Background())
 		defer cancel()
+		if backpressure {
+			// a neighbour registered earlier, with backpressure and a read mask hiding the field the predicates
+			// read: what it is shown is its own business and must not reach the subscriber under test
+			nb := col.Pull(ctx, resource.WithBackpressure(true), resource.WithReadPaths(&T{}, "default_string"))
+			go func() {
+				for range nb {
+				}
+			}()
+		}
 		var got []ev
 		view := map[string]int{}
 		subscribe := func() string {
